@@ -275,6 +275,9 @@ type tableItem struct {
 	MaxLen int       `json:"maxlen"`
 	// replay: only this ordered table (indices into Pool) and this index-block setting
 	Only      []int `json:"only,omitempty"`
+	// Lead: Pool indices registered first, in this order, in front of every table of the item (they do not count
+	// towards Size)
+	Lead []int `json:"lead,omitempty"`
 	OnlyBlock *bool `json:"onlyblock,omitempty"`
 	// positions 3.. of a table only take patterns with these Pool indices (nil = all)
 	Deep []int `json:"deep,omitempty"`
@@ -395,11 +398,11 @@ func tableJob(raw json.RawMessage) (any, error) {
 	}
 	rec = func(idx []int) {
 		visit(idx)
-		if len(idx) == it.Size {
+		if len(idx) == it.Size+len(it.Lead) {
 			return
 		}
 		for k := range it.Pool {
-			if len(idx) >= 2 && it.Deep != nil && !containsInt(it.Deep, k) {
+			if len(idx)-len(it.Lead) >= 2 && it.Deep != nil && !containsInt(it.Deep, k) {
 				continue
 			}
 			dup := false
@@ -416,7 +419,7 @@ func tableJob(raw json.RawMessage) (any, error) {
 	if it.Only != nil {
 		visit(it.Only)
 	} else {
-		rec([]int{it.First})
+		rec(append(append([]int{}, it.Lead...), it.First))
 	}
 	out.Outcomes = keys(outc)
 	return out, nil
@@ -502,6 +505,14 @@ func runTables(rc *explore.RunCtx, mode string) {
 		plans = append(plans, plan{RouterCfg{}, mini, 4, 4, nil})
 	}
 	var items []tableItem
+	// a node with five or more children none of which is literal (its first-byte index exists and is empty): five
+	// constrained parameter siblings below /a/ in front of every table over the patterns that live there
+	pblock := []string{`/a/{b:[a-z]+}/q`, `/a/{c:[A-Z]+}/r`, `/a/{d:[.]+}/s`, `/a/{e:[,]+}/t`, `/a/{f:[;]+}/u`}
+	pmini := []string{`/a/{x:\d+}/bc`, `/a/{x:\d+}/bd`, "/a/{x}/bc", "/a/{z}/bd", "/a/{x}/{y}", `/a/{x:\d+}`}
+	ppool := append(append([]string{}, pblock...), pmini...)
+	for i := range pmini {
+		items = append(items, tableItem{Mode: mode, Router: RouterCfg{}, Tier: rc.Tier, First: len(pblock) + i, Size: 3, Pool: ppool, MaxLen: 3, Lead: []int{0, 1, 2, 3, 4}})
+	}
 	for _, p := range plans {
 		var deep []int
 		for _, d := range p.deep {
